@@ -517,3 +517,54 @@ func Families(thorough bool) []Family {
 	f = append(f, crossFamily())
 	return f
 }
+
+// ---------- extension subtrees for a host document ----------
+
+// Extension is a two-level subtree x(y) to be placed below a host element,
+// together with the declarations the host element gains. The prefix is one the
+// host does not know, so that every binding in play is one of the three made
+// here: on the host (outer), on x, on y.
+type Extension struct {
+	Desc      string
+	HostDecls []NsDecl
+	Subtree   []byte
+}
+
+var extDeclMenu = [][]NsDecl{{}, {{"c19p", "urn:c19:z"}}, {{"c19p", "urn:c19:a"}}}
+var extDeclNames = []string{"-", "c19p=z", "c19p=a"}
+var extPrefixMenu = []string{"", "c19p"}
+var extAttrMenu = [][]GAttr{{}, {{Prefix: "c19p", Local: "x", Raw: "1"}}}
+
+// Extensions enumerates (host declaration) x (declaration, element prefix,
+// qualified attribute on x) x (the same on y), keeping the namespace-well-formed
+// combinations in which the prefix is used somewhere.
+func Extensions(visit func(Extension)) int {
+	n := 0
+	for hd := range extDeclMenu {
+		for xi := 0; xi < 12; xi++ {
+			for yi := 0; yi < 12; yi++ {
+				mk := func(name string, i int) *Elem {
+					return &Elem{Prefix: extPrefixMenu[i/2%2], Local: name, Decls: extDeclMenu[i/4], Attrs: extAttrMenu[i%2]}
+				}
+				x, y := mk("c19x", xi), mk("c19y", yi)
+				x.Kids = []any{y}
+				used := x.Prefix != "" || y.Prefix != "" || len(x.Attrs) > 0 || len(y.Attrs) > 0
+				scope := map[string]string{}
+				for _, d := range extDeclMenu[hd] {
+					scope[d.Prefix] = d.URI
+				}
+				if !used || !wellFormed(x, scope) {
+					continue
+				}
+				var b bytes.Buffer
+				x.write(&b)
+				n++
+				visit(Extension{
+					Desc:      fmt.Sprintf("host[%s] x[%s;%s;attrs%d] y[%s;%s;attrs%d]", extDeclNames[hd], x.Prefix, extDeclNames[xi/4], xi%2, y.Prefix, extDeclNames[yi/4], yi%2),
+					HostDecls: extDeclMenu[hd], Subtree: b.Bytes(),
+				})
+			}
+		}
+	}
+	return n
+}
